@@ -165,7 +165,7 @@ class TableVer(VerificationStrategy):
 
     def pack(self, c):
         if isinstance(c, Lab) and c.i in self.packs:
-            return build_pack(self.packs[c.i], foreign=True)
+            return build_pack(self.packs[c.i], foreign=bool(self.packs[c.i].get("foreign", True)))
         raise InvalidOperationError("no pack")
 
     @classmethod
@@ -280,7 +280,7 @@ def all_packs(table):
     """The pack of a table and, recursively, the packs its verification rows offer."""
     out = [build_pack(table, foreign=bool(table.get("foreign")))]
     for sub in (table.get("packs") or {}).values():
-        out.extend(build_pack(t, foreign=True) for t in _subtables(sub))
+        out.extend(build_pack(t, foreign=bool(t.get("foreign", True))) for t in _subtables(sub))
     return out
 
 
@@ -316,14 +316,21 @@ def complement_universe(rng):
         rows.append([v, [], [], False, False])
         rows.append([x, [], [], False, False])
         sub_rows = [[x, [v, a], [0, rng.choice((0, 0, 1))], False, True], [a, [], [], False, False]]
-        if rng.random() < 0.25:
+        indirect = rng.random() < 0.4
+        if indirect:
+            # the row about X is only found by expanding X itself (no foreign-row factory): V's own
+            # row leads to X and to a class the pack can never enumerate; X is already enumerable
+            # from the specification when that row is recorded, and must be expanded all the same
+            zbad = fresh()
+            sub_rows.append([v, [zbad, x], [1, 0], False, False])
+        if rng.random() < 0.25 and not indirect:
             f = fresh()
             sub_rows += [[v, [a, f], [0, 1], False, rng.random() < 0.5], [f, [], [], False, False]]
         if rng.random() < 0.4:  # a distractor row about classes that do not matter
             d1, d2 = fresh(), fresh()
             sub_rows.append([d1, [d2, a], [0, 0], False, True])
         rng.shuffle(sub_rows)
-        packs[v] = {"n": nxt[0], "rows": sub_rows, "empties": []}
+        packs[v] = {"n": nxt[0], "rows": sub_rows, "empties": [], "foreign": not indirect}
     if via_reverse:
         w, z, b = fresh(), fresh(), fresh()
         kids += [w, z]  # Z is a child of the root too, so that the search meets (and verifies) it
